@@ -2016,6 +2016,14 @@ func decodeRunes(s string, n int) (string, int) {
 // not valid hex.
 func parseRune(hex string) rune {
 
+	// ParseInt accepts a leading sign: "+041" is not four
+	// hexadecimal digits.
+	for _, r := range hex {
+		if !(r >= '0' && r <= '9') && !(r >= 'a' && r <= 'f') && !(r >= 'A' && r <= 'F') {
+			return -1
+		}
+	}
+
 	n, err := strconv.ParseInt(hex, 16, 32)
 	if err != nil {
 		return -1
